@@ -46,6 +46,26 @@ def make_pipeline(ctx, prop, kind, mtype, keys, num_anneals, sched, init, in_ord
     mods = texts()
     fn = {'quso': A.anneal_quso, 'puso': A.anneal_puso, 'qubo': A.anneal_qubo, 'pubo': A.anneal_pubo}[kind]
     sc = SCHEDULES[sched]
+    counter = [0]
+
+    def native_validation(br):
+        """re-run this path's bridge calls on a native build with scripted draws (sampled)"""
+        counter[0] += 1
+        if ctx.concrete is not None or not br.calls or not (counter[0] <= 12 or counter[0] % 8 == 0):
+            return []
+        from .. import native
+        w = ctx.witness(ctx.pc_of_current)
+        if w is None:
+            return []
+        out = []
+        for fname, largs, result, events, defs in br.calls:
+            try:
+                ok, detail = native.validate_call(fname, largs, result, events, w, ctx.names, defs)
+            except Exception as e:      # noqa
+                ok, detail = False, 'native replay raised %s: %s' % (type(e).__name__, e)
+            out.append(Ob('ENGINE: native build (real wrapper + kernels, scripted draws) agrees with the interpreter on this path', True if ok else (None if ok is None else False),
+                          info={'detail': detail, 'witness': {k: str(v) for k, v in list(w.items())[:12]}}))
+        return out
 
     def run():
         br = Bridge(ctx, tagmap, mods, watch_params=watch)
@@ -119,6 +139,7 @@ def make_pipeline(ctx, prop, kind, mtype, keys, num_anneals, sched, init, in_ord
         if out['status'] == 'UB':
             return [Ob('no undefined behaviour / memory error / leak in the extension', False, info={'ub': out['msg']}, sig='UB: ' + out['msg'].split(':')[0][:60])]
         obs.append(Ob('no undefined behaviour / memory error / leak in the extension', True))
+        obs += native_validation(br)
         res = out['res']
         if prop in ('C11', 'C12', 'C17'):
             from qubovert.sim import AnnealResults
